@@ -1,7 +1,11 @@
 #!/bin/sh
-# offline setup: nothing to fetch; warm the Verus cache and (if present) the Kani build cache
-set -e
+# offline setup: nothing is fetched. Warms the build caches used by the checks (all under /verif/.cache):
+#   - Kani build of the crate (engine KX), - optimized-dependency test build of the crate (engines RP / BX).
+# The checks work without this (they build on demand); it only moves the one-time cost out of the first check.
 cd "$(dirname "$0")"
 mkdir -p .cache evidence replays
-verus --version >/dev/null
+verus --version >/dev/null || exit 1
+export CARGO_NET_OFFLINE=true
+python3 tools/kx.py U-shift >/dev/null 2>&1 || echo "setup: Kani warm-up failed (checks will build on demand)"
+python3 tools/rp.py --warm >/dev/null 2>&1 || echo "setup: replay warm-up failed (checks will build on demand)"
 exit 0
